@@ -266,9 +266,36 @@ func c04Check(cs c04Case) (kind, detail string) {
 					got = impl.ToV(res[0]).String()
 				}
 				if strings.Contains(cs.Flags, "+") && t == ". *%s ." {
-					continue // a *+ a appends sequences: not an identity by definition
+					continue // a *+ a appends sequences: not an identity by definition (judged against the reference below)
 				}
 				return "identity", fmt.Sprintf("%s on %s gives %s", expr, a.JSON(), got)
+			}
+		}
+		// both operands are the very same node: the result is still what the reference computes for a and a copy of it
+		for _, t := range []string{". *%s .", "(.a *%s .a)"} {
+			in := a
+			if t != ". *%s ." {
+				in = val.MapV(val.StrV("a"), a.Copy())
+			}
+			self := refsem.Leaf("self")
+			ref := refsem.Run(c04MulE(cs.Flags, self, &refsem.E{Op: "ref", V: a.Copy()}), []*val.V{a.Copy()})
+			if ref.Undef != "" || ref.Err != "" || len(ref.Results) != 1 {
+				continue
+			}
+			expr := fmt.Sprintf(t, cs.Flags)
+			parsed, err, pan := impl.Parse(expr)
+			if err != nil || pan != nil {
+				return "parse-error", fmt.Sprintf("%s: %v %v", expr, err, pan)
+			}
+			res, eerr, epan := impl.Eval(parsed, impl.Doc(in))
+			if epan != nil {
+				return "panic", fmt.Sprint(epan)
+			}
+			if eerr != nil || len(res) != 1 {
+				return "same-node", fmt.Sprintf("%s on %s: %d results, error %v; the merge of the value with itself is %s", expr, in.JSON(), len(res), eerr, ref.Results[0].String())
+			}
+			if got := impl.ToV(res[0]).String(); got != ref.Results[0].String() {
+				return "same-node", fmt.Sprintf("%s on %s gives %s; the merge of the value with itself is %s", expr, in.JSON(), got, ref.Results[0].String())
 			}
 		}
 		return "", ""
